@@ -51,7 +51,7 @@ static _Atomic int ng;
 
 static struct {
 	uint64_t cases, children, spawned, forked_with_interest, strangers, statuses_reaped, statuses_delivered, stops, conts, exits, kills,
-		 kill_helper_calls, kill_helper_dead, unreg_in_handler, immediate_exits, stranger_deaths, zombie_checks, unreg_other, batches, missed_statuses, interests_reused;
+		 kill_helper_calls, kill_helper_dead, unreg_in_handler, immediate_exits, stranger_deaths, zombie_checks, unreg_other, batches, missed_statuses, interests_reused, kill_and_unregister;
 } S;
 static _Atomic long c_reaped, c_delivered, c_killcalls, c_killdead, c_stranger_deaths;
 
@@ -481,6 +481,29 @@ static void prog_cb(void *cookie)
 			else if (r < 70) { tell(c, 'e'); S.exits++; }
 			else if (r < 78) { tell(c, 'k'); S.kills++; }
 			else if (r < 84) { tell(c, 't'); S.kills++; }
+			else if (r < 90 && c->registered && c->wi != NULL && c->owner == lt->idx && c->kind != CK_ANCHOR && c->linger == 0 && !is_stopped(c)) {
+				/* the owner kills its child and drops the interest on its own initiative, while whichever thread reaps (possibly another
+				 * one, possibly in the middle of a pass) notices the death: nothing may reach the interest after the call returned */
+				int spin = (int)rng_n(&lt->rng, 300);
+				c->told_exit = 1;
+				hist(c, 'K');
+				atomic_fetch_add(&c->outstanding, 1);
+				vt_ext_add(1);
+				if (__real_kill(c->pid, SIGKILL) < 0) {
+					atomic_fetch_sub(&c->outstanding, 1);
+					vt_ext_add(-1);
+				}
+				while (spin-- > 0)
+					sched_yield();
+				c->unreg_by_other = 1;
+				c->unreg_seq = seq_next();
+				iv_wait_interest_unregister(c->wi);
+				c->registered = 0;
+				memset(c->wi, 0xDD, sizeof(*c->wi));
+				free(c->wi);
+				c->wi = NULL;
+				S.kill_and_unregister++;
+			}
 			else if (c->registered && c->wi != NULL && c->owner == lt->idx) {
 				/* kill helper at a random moment: if the death was reaped already it must refuse */
 				uint64_t before = seq_next();
@@ -752,11 +775,11 @@ int main(int argc, char **argv)
 	for (i = first; i < first + n; i++)
 		run_case(i, seed);
 	mon_printf("STAT method=%s cases=%llu children=%llu spawned=%llu forked_with_interest=%llu strangers=%llu stranger_deaths_reaped=%ld statuses_reaped=%ld "
-		   "statuses_delivered=%ld stops=%llu continues=%llu exits=%llu kills=%llu immediate_exits=%llu interest_objects_reused_without_init=%llu unregistered_in_handler_before_death=%llu "
+		   "statuses_delivered=%ld stops=%llu continues=%llu exits=%llu kills=%llu immediate_exits=%llu interest_objects_reused_without_init=%llu killed_and_unregistered_at_once=%llu unregistered_in_handler_before_death=%llu "
 		   "unregistered_by_another_handler=%llu kill_helper_calls=%ld kill_helper_on_reaped_dead=%ld zombie_checks=%llu shim_quiescences=%llu sig_deliveries=%llu violations=%d\n",
 		   g_method, (unsigned long long)S.cases, (unsigned long long)S.children, (unsigned long long)S.spawned, (unsigned long long)S.forked_with_interest,
 		   (unsigned long long)S.strangers, (long)c_stranger_deaths, (long)c_reaped, (long)c_delivered, (unsigned long long)S.stops,
-		   (unsigned long long)S.conts, (unsigned long long)S.exits, (unsigned long long)S.kills, (unsigned long long)S.immediate_exits, (unsigned long long)S.interests_reused,
+		   (unsigned long long)S.conts, (unsigned long long)S.exits, (unsigned long long)S.kills, (unsigned long long)S.immediate_exits, (unsigned long long)S.interests_reused, (unsigned long long)S.kill_and_unregister,
 		   (unsigned long long)S.unreg_in_handler, (unsigned long long)S.unreg_other, (long)c_killcalls, (long)c_killdead, (unsigned long long)S.zombie_checks,
 		   (unsigned long long)vt_stats.quiescences, (unsigned long long)vt_stats.sig_deliveries, mon_viol_total);
 	mon_printf("DONE\n");
